@@ -25,6 +25,13 @@ func init() {
 			g33SpellableCastType(c.Repo, c.Rep)
 			g27ProgressMeasure(c.Repo, c.Rep)
 			g15StringCuts(c.Repo, c.Rep)
+			runG15(c.Repo, c.Rep)
+			// a leftover derived.gen.go is part of the package directory goderive is run on: it must not decide whether the
+			// package loads (G22), and a successful run must have replaced or removed it (G10)
+			g22PreviousOutputHidden(c)
+			runG10(c.Repo, c.Rep)
+			g23BreakOnlyWithoutProgress(c.Repo, c.Rep)
+			g31NoPackageSkipped(c.Repo, c.Rep)
 			g30GeneratorStateless(c.Repo, c.Rep)
 			// which operator or helper is emitted for a component is decided by these predicates: accepting a type Go cannot
 			// compare or copy gives text that does not type-check
@@ -169,6 +176,8 @@ func init() {
 			runG1(c.Raw, c.Rep)
 			g23UnresolvedReported(c.Repo, c.Rep)
 			g23BreakOnlyWithoutProgress(c.Repo, c.Rep)
+			g22PreviousOutputHidden(c)
+			g31NoPackageSkipped(c.Repo, c.Rep)
 			c.Rep.floor("G1", 350)
 			g12HasUndefined(c)
 			g14NilPkg(c.Repo, c.Rep)
@@ -211,6 +220,7 @@ func init() {
 			g16Eq(c)
 			g29EqDefaults(c.Repo, c.Rep)
 			g15StringCuts(c.Repo, c.Rep)
+			runG15(c.Repo, c.Rep)
 			g21ReserveEveryCalledName(c.Repo, c.Rep)
 			// "fails exactly when …": a detected conflict or duplicate must reach the exit status
 			runG1(c.Raw, c.Rep)
